@@ -82,6 +82,53 @@ def rxmJudge (f : Framing) (inputs : List String) (out : List String) : String :
     else "violates reused-message-as-fresh"
   | _ => "bad-op"
 
+/-- `(<peer>:<datagram>)*` → datagrams per peer, in order. -/
+def perPeer (np : Nat) (sends : List String) : Option (List (List Bytes)) :=
+  let parsed := sends.map fun s =>
+    match s.splitOn ":" with
+    | [p, h] =>
+      match p.toNat?, Driver.parseHex? h with
+      | some p, some b => some (p, b)
+      | _, _ => none
+    | _ => none
+  if parsed.all Option.isSome then
+    let ps := parsed.filterMap id
+    some ((List.range np).map fun i => (ps.filter (·.1 == i)).map (·.2))
+  else none
+
+/-- A real datagram server with several peers: per peer, fresh pooled decodes of that peer's datagrams. -/
+def usrv2Line (np : Nat) (sends : List String) : String :=
+  match perPeer np sends with
+  | none => "bad-op"
+  | some pp =>
+    let rows := pp.map fun ds => ds.filterMap fun bs =>
+      match unmarshalWithDecoderN .udp newMessage bs with
+      | .ok (_, st) => some (fmtMsg st.msg)
+      | .error _ => none
+    let total := (rows.map List.length).foldl (· + ·) 0
+    let parts := (List.range rows.length).zip rows |>.map fun (i, r) => s!"p{i} " ++ " ; ".intercalate r
+    s!"usrv2 {total} | " ++ " | ".intercalate parts ++ " | unknown="
+
+/-- Split a field list at `;`. -/
+def splitSemi (f : List String) : List (List String) :=
+  let rec go : List String → List String → List (List String) → List (List String)
+    | [], cur, acc => (cur.reverse :: acc).reverse
+    | ";" :: r, cur, acc => go r [] (cur.reverse :: acc)
+    | x :: r, cur, acc => go r (x :: cur) acc
+  (go f [] []).filter (· ≠ [])
+
+def usrv2Judge (np : Nat) (sends : List String) (out : List String) : String :=
+  match perPeer np sends with
+  | none => "bad-op"
+  | some pp =>
+    match splitBar out with
+    | ("usrv2" :: _) :: rest =>
+      let peers := rest.filter fun g => match g with | p :: _ => p.startsWith "p" | [] => false
+      let unknown := rest.any fun g => match g with | [u] => u.startsWith "unknown=" && u ≠ "unknown=" | _ => false
+      let got := peers.map fun g => (splitSemi (g.drop 1)).map fun o => (parseMsg? o).map (·.1)
+      (judgePeers pp got unknown).toString
+    | _ => "bad-op"
+
 /-- Judge of the receive paths: each delivered message must equal the reference parse of the bytes it was sent as. -/
 def rxJudge (f : Framing) (inputs : List String) (out : List String) : String :=
   let expected := inputs.filterMap fun h =>
@@ -133,6 +180,10 @@ def modelLine (fields : List String) : String :=
   | "rxudp" :: n :: dgrams =>
     match n.toNat? with
     | some n => if dgrams.length = n then rxLine .udp dgrams else "bad-op"
+    | none => "bad-op"
+  | "usrv2" :: _delay :: np :: _k :: sends =>
+    match np.toNat? with
+    | some np => usrv2Line np sends
     | none => "bad-op"
   | "rxmon" :: via :: _split :: n :: frames =>
     match n.toNat? with
@@ -213,6 +264,10 @@ def judgeLine (inp out : List String) : String :=
     | _, _, _ => "bad-op"
   | "rxtcp" :: _split :: _na :: _nb :: frames, _ => rxJudge .tcp frames out
   | "rxudp" :: _n :: dgrams, _ => rxJudge .udp dgrams out
+  | "usrv2" :: _delay :: np :: _k :: sends, _ =>
+    match np.toNat? with
+    | some np => usrv2Judge np sends out
+    | none => "bad-op"
   | "rxmon" :: via :: _split :: _n :: frames, _ => rxmJudge (if via = "udp" then .udp else .tcp) frames out
   | _, _ => "bad-op"
 
